@@ -513,15 +513,21 @@ def main(pid, module):
     parser.add_argument("--replay", default=None)
     args = parser.parse_args(sys.argv[2:] if len(sys.argv) > 1 and sys.argv[1] == pid else None)
     seed = int(os.environ.get("VERIF_SEED", "0"))
-    # overall watchdog: a run that hangs (e.g. the code under test loops forever) ends with exit 2,
-    # which is a harness outcome and never a verdict
-    import signal
+    # overall watchdog: a run that hangs (e.g. the code under test loops forever) is killed from outside the
+    # process — harness modules use signal.alarm for per-case limits and code under test may swallow
+    # exceptions, so an in-process alarm is not reliable.  A killed run is a harness outcome, never a verdict.
     limit = int(os.environ.get("VERIF_TIME_LIMIT", "1500" if args.tier == "quick" else "10800"))
+    watchdog = subprocess.Popen(["sh", "-c", "sleep %d; echo 'HARNESS-TIMEOUT property=%s after %d s (killed; not a verdict)'; "
+                                 "kill -9 %d" % (limit, pid, limit, os.getpid())], start_new_session=True)
+    import atexit
+    import signal
 
-    def _timeout(signum, frame):
-        raise TimeoutError("check exceeded %d s" % limit)
-    signal.signal(signal.SIGALRM, _timeout)
-    signal.alarm(limit)
+    def _stop_watchdog():
+        try:
+            os.killpg(watchdog.pid, signal.SIGKILL)    # the shell AND its sleep (which would keep pipes open)
+        except OSError:
+            pass
+    atexit.register(_stop_watchdog)
     try:
         return run_check(pid, args.tier, seed, module, replay=args.replay)
     except Exception:  # pylint: disable=broad-except
